@@ -85,6 +85,15 @@ pub fn run(r: &mut Rng, _n: u64, x: &mut Exec, sink: &mut Sink) {
     let mut vals: Vec<u64> = Vec::new();
     for (_, _, v) in ABI_CONSTS.iter() {
         for d in [0u64, 1, u64::MAX] { vals.push(v.wrapping_add(d)); }
+        // the same low bits with garbage above them: a helper that matches on a truncated value shows here
+        for hi in [1u64 << 8, 1 << 16, 1 << 31, 1 << 32, 1 << 63] { vals.push(v | hi); vals.push(v.wrapping_add(hi)); }
+        // ... and every way of keeping only the low 8/16/32 bits: all-ones above (a sign-extended or negative
+        // argument), one bit just above, and the low part alone
+        for w in [8u32, 16, 32] {
+            let m = (1u64 << w) - 1;
+            let low = v & m;
+            for x in [low | !m, low | (1u64 << w), low, v | !m, v.wrapping_sub(1u64 << w)] { vals.push(x); }
+        }
     }
     for _ in 0..500 { vals.push(r.edge64()); }
     vals.sort(); vals.dedup();
